@@ -172,7 +172,11 @@ func flowsOp(st *caseState, w []string) string {
 		if fs == nil || fs.eng2 == nil || !ok1 || !ok2 || !ok3 || (both != 0 && both != 1) {
 			return "bad-op"
 		}
-		return fs.eng2.respond(proto.Dec(sE), both == 1, int(status))
+		txn := proto.Dec(sE) + "-x"
+		if idE, ok := kvS(w, "id"); ok {
+			txn = proto.Dec(idE)
+		}
+		return fs.eng2.respond(proto.Dec(sE), txn, both == 1, int(status))
 	case "fx":
 		fs := st.fl
 		pE, ok0 := kvS(w, "p")
@@ -181,6 +185,11 @@ func flowsOp(st *caseState, w []string) string {
 			return "bad-op"
 		}
 		pn, seq := proto.Dec(pE), proto.Dec(sE)
+		// transaction id of this attempt (every attempt of a logical call has its own)
+		txn := seq + "-x"
+		if idE, ok := kvS(w, "id"); ok {
+			txn = proto.Dec(idE)
+		}
 		key := counterKey(pn, seq)
 		if fs.mode == "engine" {
 			status, ok := kvI(w, "status")
@@ -188,7 +197,7 @@ func flowsOp(st *caseState, w []string) string {
 				return "bad-op"
 			}
 			fs.keys[key] = true
-			tag, retry, wait, err := fs.eng.respond(seq, seq+"-x", int(status))
+			tag, retry, wait, err := fs.eng.respond(seq, txn, int(status))
 			if err != nil {
 				return "err:exec:" + proto.Enc(err.Error())
 			}
@@ -199,11 +208,12 @@ func flowsOp(st *caseState, w []string) string {
 			return "bad-op"
 		}
 		fs.keys[key] = true
-		api := streamtypes.NewAPIStream("c17", publictypes.StreamTypeResponse, directShare).WithLunarContext(fs.lctx)
-		api.SetResponse(streamtypes.NewResponse(lunarMessages.OnResponse{
-			ID: seq + "-x", SequenceID: seq, Method: "GET", URL: "c17.example.com/x", Status: 500,
+		// the production constructor of a response stream; the flow installs its context on it
+		api := streamtypes.NewResponseAPIStream(lunarMessages.OnResponse{
+			ID: txn, SequenceID: seq, Method: "GET", URL: "c17.example.com/x", Status: 500,
 			Headers: map[string]string{},
-		}))
+		}, directShare)
+		api.SetContext(fs.lctx)
 		t0 := fs.clk.Now()
 		io, err := p.Execute("c17flow", api)
 		wait := fs.clk.Now().Sub(t0).Nanoseconds()
